@@ -30,6 +30,8 @@ def signed_matrix(n, dens, scheme, directed, seed):
         W = rs.randn(n, n)
     elif scheme == 'int':
         W = rs.randint(1, 4, size=(n, n)) * rs.choice([-1.0, 1.0], size=(n, n))
+    elif scheme == 'logu':  # magnitudes over 12 orders: nonzero weights far below any 'rounding noise' threshold
+        W = 10.0 ** rs.uniform(-12, 0, size=(n, n)) * rs.choice([-1.0, 1.0], size=(n, n))
     elif scheme == 'fewneg':  # mostly positive
         W = np.abs(rs.randn(n, n)) * rs.choice([-1.0, 1.0], size=(n, n), p=[.15, .85])
     else:
@@ -47,21 +49,21 @@ def cases(tier, seed):
     nmax = 24 if thorough else 10
     rs = np.random.RandomState(seed + 606)
     out = []
-    nmat = 60 if thorough else 16
+    nmat = 120 if thorough else 40
     for t in range(nmat):
         n = int(rs.randint(5, nmax + 1))
-        dens = float(rs.choice([1.0, 1.0, .8, .5, .3]))
-        scheme = ['normal', 'int', 'fewneg'][t % 3]
+        dens = float(rs.choice([1.0, 1.0, .8, .5, .3, .15]))
+        scheme = ['normal', 'int', 'fewneg', 'logu'][t % 4]
         ms = int(rs.randint(1 << 30))
         for f in FUNCS:
             out.append({'f': f, 'n': n, 'dens': dens, 'scheme': scheme, 'ms': ms, 'kind': 'single',
                         'rs': seed * 100 + t, 'pol': POL[t % len(POL)], 'allpol': thorough and t % 6 == 0})
     L = 300 if thorough else 40
-    for t in range(8 if thorough else 3):
+    for t in range(12 if thorough else 6):
         n = int(rs.randint(5, 9))
         for f in ('randmio_und_signed', 'randmio_dir_signed'):
             for rd in ({'kind': 'spy', 'seed': seed + t}, {'kind': 'hostile', 'policy': POL[t % len(POL)], 'seed': seed}):
-                out.append({'f': f, 'n': n, 'dens': [1.0, .6][t % 2], 'scheme': ['normal', 'int'][t % 2],
+                out.append({'f': f, 'n': n, 'dens': [1.0, .6, .3][t % 3], 'scheme': ['normal', 'int', 'logu'][t % 3],
                             'ms': int(rs.randint(1 << 30)), 'kind': 'chain', 'len': L, 'rng': rd})
     return out
 
